@@ -152,6 +152,31 @@ func trueTiles(s maptile.Set) maptile.Set {
 	return out
 }
 
+// c14union is the union of two tile sets (the tiles with value true), built by the monitor; the library's own
+// Set.Merge is run beside it on a copy and must agree (the covers of collections are built with it).
+func c14union(c *h.Ctx, a, b maptile.Set) maptile.Set {
+	out := maptile.Set{}
+	for t, v := range a {
+		if v {
+			out[t] = true
+		}
+	}
+	for t, v := range b {
+		if v {
+			out[t] = true
+		}
+	}
+	lib := maptile.Set{}
+	for t, v := range a {
+		lib[t] = v
+	}
+	lib.Merge(b)
+	if !sameSet(lib, out) {
+		c.Fail("", "Set.Merge does not leave the union of the two sets' tiles in the receiver", map[string]interface{}{"receiver_tiles": len(trueTiles(a)), "argument_tiles": len(trueTiles(b)), "merged_tiles": len(trueTiles(lib)), "union_tiles": len(out)})
+	}
+	return out
+}
+
 func sameSet(a, b maptile.Set) bool {
 	a, b = trueTiles(a), trueTiles(b)
 	if len(a) != len(b) {
@@ -367,7 +392,7 @@ func init() {
 					}
 					if polyLen(fractions(ls2, zoom)) > 0 {
 						u := tilecover.LineString(ls2.Clone(), zoom)
-						u.Merge(cover)
+						u = c14union(c, u, cover)
 						if m := tilecover.MultiLineString(orb.MultiLineString{ls.Clone(), ls2.Clone()}, zoom); !sameSet(m, u) {
 							c.Fail("", "the cover of a multi line string is not the union of its members' covers", map[string]interface{}{"lines": sv(orb.MultiLineString{ls, ls2}), "zoom": z})
 						}
@@ -503,7 +528,7 @@ func init() {
 					pt := pg[0][0]
 					coll := orb.Collection{pg.Clone(), pt, orb.MultiPolygon{pg.Clone()}}
 					u := tilecover.Point(pt, zoom)
-					u.Merge(cover)
+					u = c14union(c, u, cover)
 					if g, err := tilecover.Geometry(coll, zoom); err != nil || !sameSet(g, u) {
 						c.Fail("", "the cover of a collection is not the union of its members' covers", map[string]interface{}{"polygon": sv(pg), "zoom": z, "err": sv(err)})
 					}
@@ -515,9 +540,7 @@ func init() {
 						if err != nil || !c14polygon(c, island, zoom, ic, "Polygon (island in a lake)") {
 							break
 						}
-						want := maptile.Set{}
-						want.Merge(cover)
-						want.Merge(ic)
+						want := c14union(c, cover, ic)
 						m1, err1 := tilecover.MultiPolygon(orb.MultiPolygon{pg.Clone(), island.Clone()}, zoom)
 						m2, err2 := tilecover.MultiPolygon(orb.MultiPolygon{island.Clone(), pg.Clone()}, zoom)
 						c.Evals(3)
